@@ -441,7 +441,7 @@ theorem import_den_w1 (p : Program) (decls : List Stmt) (gdefs : List GateDef) (
       importProgram p = .ok (env.qregs.total, env.cregs.total, iops) ∧
       SegRel1 env.qregs.total sops iops := by
   obtain ⟨himp, hgates⟩ := import_refines_w1 p decls gdefs ops hw env fl h hk
-  obtain ⟨rfl, hd, ho, hdefs, hfew, hbodies, hz, hkeys⟩ := hw
+  obtain ⟨rfl, hd, ho, hdefs, hfew, hbodies, hz, _⟩ := hw
   -- the flat operations are well formed
   have hwf : ∀ f ∈ fl, FlatWf1 gdefs.reverse env.qregs.total f := by
     obtain ⟨e0, o0, o1, h0, h1, rfl⟩ := flattenFrom_cons_inv (by simpa [flatten] using h)
